@@ -3,6 +3,7 @@ package main
 import (
 	"fmt"
 	"go/constant"
+	"go/token"
 	"go/types"
 	"regexp"
 	"sort"
@@ -346,6 +347,38 @@ func init() {
 			}
 			_, has := dec[want]
 			c.Check(has, funcKey(rd)+" :: decodes "+e+" segments with "+want, w.pos(rd.Pos()), want, "the reader does not use "+want+" (it uses "+strings.Join(sortedKeys(keysOf(dec)), ", ")+"): keys containing characters the two schemes treat differently are proven under another key")
+		}
+		// F66: the reader tells the two encodings apart by the marker "x:" at the start of an element. The
+		// writer therefore emits a URL-encoded element only where the encoded text does not start with that
+		// marker (otherwise the element is read back as hex: another key, or none).
+		marker := ""
+		for _, call := range w.callsTo(rd, "strings#HasPrefix") {
+			if k, isK := stripConv(callArgs(call)[1]).(*ssa.Const); isK && k.Value != nil && k.Value.Kind() == constant.String {
+				marker = constant.StringVal(k.Value)
+			}
+		}
+		if c.Check(marker != "", funcKey(rd)+" :: hex marker found", w.pos(rd.Pos()), "HasPrefix(part, marker)", "the reader no longer recognises hex elements by a prefix") {
+			n := 0
+			for _, b := range wr.Blocks {
+				for _, in := range b.Instrs {
+					bo, ok := in.(*ssa.BinOp)
+					if !ok || bo.Op != token.ADD {
+						continue
+					}
+					// "/" + <url-escaped element>
+					k, isK := stripConv(bo.X).(*ssa.Const)
+					if !isK || k.Value == nil || k.Value.Kind() != constant.String || constant.StringVal(k.Value) != "/" {
+						continue
+					}
+					esc := w.expr(bo.Y)
+					if !strings.HasPrefix(esc, "net/url.") {
+						continue
+					}
+					n++
+					c.guards(wr, bo, funcKey(wr)+" :: emit a URL-encoded element", 0, guardRe("the encoded element does not start with the hex marker", `^false\(strings\.HasPrefix\(`+regexp.QuoteMeta(esc)+`, `+regexp.QuoteMeta(fmt.Sprintf("%q", marker))+`\)\)$`))
+				}
+			}
+			c.Check(n == 1, funcKey(wr)+" :: URL-encoded element emission found", w.pos(wr.Pos()), "1", fmt.Sprintf("%d", n))
 		}
 		for d, at := range dec {
 			found := false
